@@ -342,6 +342,52 @@ func runC18(a *Analyzer, r *Results) {
 			}
 		}
 	}
+	// I3.inplace: the order of a committee is its leader schedule: no library function reorders or overwrites the elements
+	// of a committee slice it did not allocate itself
+	nMut := 0
+	for _, f := range a.P.Funcs {
+		for _, b := range f.Blocks {
+			for _, in := range b.Instrs {
+				var target ssa.Value
+				what := ""
+				switch x := in.(type) {
+				case *ssa.Store:
+					addr := x.Addr
+					if fa, ok := addr.(*ssa.FieldAddr); ok {
+						addr = fa.X
+					}
+					if ia, ok := addr.(*ssa.IndexAddr); ok && isCommitteeSlice(ia.X.Type()) {
+						target, what = ia.X, "element store"
+					}
+				case *ssa.Call:
+					cc := &x.Call
+					if bi, ok := cc.Value.(*ssa.Builtin); ok && bi.Name() == "copy" && isCommitteeSlice(cc.Args[0].Type()) {
+						target, what = cc.Args[0], "copy into"
+					}
+					if g := cc.StaticCallee(); g != nil && (funcPkgPath(g) == "sort" || funcPkgPath(g) == "slices" || funcPkgPath(g) == "math/rand") {
+						for _, arg := range cc.Args {
+							v := arg
+							if mi, ok := v.(*ssa.MakeInterface); ok {
+								v = mi.X
+							}
+							if isCommitteeSlice(v.Type()) {
+								target, what = v, g.String()
+							}
+						}
+					}
+				}
+				if target == nil {
+					continue
+				}
+				nMut++
+				r.Check("I3.inplace", pr, "a committee slice is reordered or overwritten in place only by the function that allocated it (the order of the committee is the leader schedule every node must agree on)", shortName(f), a.P.InstrPos(in), freshAddr(target),
+					what+" on a committee slice this function did not allocate", "W")
+			}
+		}
+	}
+	if nMut == 0 {
+		r.Check("I3.inplace", pr, "a committee slice is reordered or overwritten in place only by the function that allocated it (the order of the committee is the leader schedule every node must agree on)", "none", a.P.Pos(a.P.Func("services/termincommittee.NewTermInCommittee").Pos()), true, "", "W")
+	}
 	// I3: committee written only by the constructor, after a positive size guard
 	loc := "termincommittee.TermInCommittee.committeeMembers"
 	nStores := 0
@@ -550,7 +596,7 @@ func runC19formula(a *Analyzer, r *Results) {
 		} else if val.Key() == want1.Key() || val.Key() == want2.Key() {
 			ok2 = true
 		}
-		r.Check("T1.value", pr, "CalcTimeout returns minTimeout * 2^view, or a positive constant on the saturated path", shortName(fn), a.P.InstrPos(ret), ok2, why, "N")
+		r.Check("T1.value", props("C19", "C05"), "CalcTimeout returns minTimeout * 2^view, or a positive constant on the saturated path", shortName(fn), a.P.InstrPos(ret), ok2, why, "N")
 	}
 	// the exponent base is the constant 2 and nobody writes it
 	okBase := true
